@@ -394,7 +394,6 @@ func runBatch(work, bin string, part fw.Part, cfg fw.Config) batchOutcome {
 	return o
 }
 
-
 // crashInfo extracts the fatal message, the first sheens frame after it, and
 // the last CASE line per worker from a child's log.
 func crashInfo(path string) (site, msg string, cases []string) {
